@@ -1161,6 +1161,8 @@ def e2e_checks(ctx, pid, seed, count, opts_fn, what_prefix, rooms=False, cov_key
         st["runs"] += 1
         if r.get("doc_code") is not None:
             st["documents_compared_as_whole_json_values"] += 1
+            if r["doc_code"] & 16:
+                st["exports_with_canonical_keys(C05_end_to_end applies)"] += 1
         st["exit_%s" % r["exit"]] += 1
         if r["ignore_assigned"]:
             st["ignore_assigned"] += 1
@@ -1483,12 +1485,17 @@ REGISTRY = {
                     "assignment passes the executable check import_okb; C05_ids_distinct / C05_export_file: its hypothesis 'pairwise distinct ids' holds for every "
                     "accepted export with canonical decimal keys (object keys are distinct, parse_u64 is injective on canonical keys); C05_document: the whole "
                     "JSON value of the import file (WriteDoc.write_doc: every key) is read by a strict import side as exactly the registration pairs and course "
-                    "rows it was made from, the selected track only; C05_keys_parse_back (parse_u64 (zstr z) = Some z for all u64).  The real import files are "
+                    "rows it was made from, the selected track only (C05_other_track_refused: read for another track it is refused); C05_keys_parse_back (parse_u64 (zstr z) = Some z for all u64); "
+                    "C05_check_sound: what import_okb accepts satisfies the declarative statement ImportOK; C05_end_to_end: accepted export with canonical keys -> reader -> ANY hard-feasible "
+                    "assignment -> the writer's whole document -> import side -> ImportOK (with the non-vacuity example C05_end_to_end_applies); C05_document_compare (json_eqb decides equality).  The real import files are "
                     "compared AS WHOLE JSON VALUES with the writer model (CorrDoc.check_cde_doc, incl. the fixed part of the summary and the possible-rooms field), "
                     "parsed, and checked by import_okb.",
         trusted_base=["modelled, not verified: cdedb.rs read()/write() (whole document modelled as a JSON value; of the summary only the part before the wall-clock time, "
                       "the timestamp not at all); the meaning of a partial import in the CdE Datenbank is taken from the property text"],
-        assumptions=["registrations the reader drops (not 'participant', no valid choice and no instructed course) keep what the database holds"]),
+        assumptions=["registrations the reader drops (not 'participant', no valid choice and no instructed course) keep what the database holds",
+                     "a participant of the problem whom the result assigns to nothing (an instructor without choices whose course is cancelled) is not mentioned in the file and "
+                     "keeps what the database holds: C05 speaks about whom the file assigns ('newly')",
+                     "of the summary only the part before the wall-clock time is modelled (the quality figures printed in its tail are not)"]),
     "C11": dict(mk(spec_c01, streams_solver_tie, "solver tie as C05; as C05 with dense existing assignments (as attendee, as instructor of the same or another course, to "
                    "cancelled / not offered courses, beyond max_size, below min_size) and the three option sets with an ignore flag; plus an "
                    "independent reading of the raw export for 'ignored registrations are not mentioned, their courses stay active, cancelled "
@@ -1609,7 +1616,8 @@ REGISTRY = {
                    "parsed back into (course, count, [(participant, flag)], hidden) and compared in Coq with Listing.listing of the written array",
                    extra_fn=c14_cli), allow_axioms=(),
         explanation="C14_document / C14_document_round_trip / C14_document_entries: the output document (WriteDoc.simple_doc = the JSON value simple::write serialises, compared as a "
-                    "whole with every real output file) has exactly the documented keys, its array has one entry per participant, each null or a valid course index, and reads back as the assignment.  "
+                    "whole with every real output file, quality figures as binary32 bit patterns, null for 0/0) has the documented keys, its array has one entry per participant, each null or a valid course index, and reads back as the assignment; "
+                    "C14_document_input: for every accepted input document the array has one entry per participant of the input, each null or an index into the input's course list.  "
                     "C14_partition / C14_flags / C14_count / C14_once about the structural model of format_assignment (Listing.listing): under "
                     "each course exactly the people the array assigns to it, flagged exactly its instructors, count = people + hidden names; "
                     "C14_array: the array shape follows from C01's HardOK.  C14_text: for every accepted input document the TEXT written by --print "
@@ -1644,7 +1652,8 @@ REGISTRY = {
     "C08": dict(mk(spec_c08, streams_c08, RULE_NS + "; quality stream: 1-20000 participants with choices, scores with small/odd/large total penalty, external quality data; CdE reader stream: the penalties of ignored pre-assigned participants (AssignmentQualityInfo) compared with the reader model under all ignore-flag combinations", extra_fn=c08_extra), allow_axioms=(),
         explanation="C08_score_node / C08_score (score = score recomputed from the assignment, every schedule), C08_quality (numerator = sum "
                     "of penalties), C08_max (theoretical maximum >= score), C08_overall / C08_overall_none (combined_quality: numerator = penalties of the optimised participants with "
-                    "choices + penalties of the rated ignored ones, denominator = their number; QualityComb.comb_num / comb_den are what the quality stream divides in binary32).  QualityInfo of the implementation is recomputed in Coq "
+                    "choices + penalties of the rated ignored ones, denominator = their number; QualityComb.comb_num / comb_den are what the quality stream divides in binary32; INSTRUCTOR_SCORE is generated "
+                    "from caobab.rs), C08_numerators_nonneg (the unsigned subtractions cannot wrap for valid instances).  QualityInfo of the implementation is recomputed in Coq "
                     "(binary32 quotient compared bit for bit).  The rating of ignored pre-assigned participants: C08_external_rank / _first_rank / "
                     "_external_list / _external_instructors (only instructors WITH choices are counted: defect D18, fixed by 2b07851) on the reader "
                     "specification, and ext_quality_okb (recomputed declaratively from the raw export) on the implementation's output.",
